@@ -34,19 +34,6 @@ FIELDS = [
 prefix_expr, prefix_stmt = sem.prefix_expr, sem.prefix_stmt
 
 
-@findings.predicate("c06_element_dynamic_block_with_foreach")
-def pred_elem_dyn_foreach(case):
-    """a holder call references, through a list element, a dynamic block that contains a foreach"""
-    fe = set(b["name"] for b in case["cls"]["dyn"] if any(s_[0] == "foreach" for s_ in b["stmts"]))
-    for op in case["ops"]:
-        if op[0] == "hcall":
-            for st in op[2]:
-                t = cjson(st)
-                if any(('.%s"' % n) in t for n in fe):
-                    return True
-    return False
-
-
 def gen_inline(d, g):
     out = []
     for _ in range(d.randint(1, 3)):
@@ -99,19 +86,16 @@ def cases(d):
             # holder whose CLASS constraint references the dynamic block of the element selected by a non-random index;
             # the index is reassigned between the calls
             i, j = d.sample(list(range(n)), 2)
-            has_fe = any(s_[0] == "foreach" for s_ in cls["dyn"][1]["stmts"])
-            ops.append(["h2call", [i, j], "d0" if (has_fe or d.chance(50)) else "d1",
+            ops.append(["h2call", [i, j], "d0" if d.chance(50) else "d1",
                         [[d.randint(0, 1), d.seed()] for _ in range(d.randint(2, 4))]])
         else:
             # holder call: instances i and j become elements of a holder's list; reference element dynamic blocks
             i, j = d.sample(list(range(n)), 2)
             e = d.randint(0, 1)
-            has_fe = any(s_[0] == "foreach" for s_ in cls["dyn"][1]["stmts"])
-            # (a block holding a foreach, reached through an element, is a recorded finding: kept as a small class)
-            pick = (lambda: "d0" if (has_fe and not d.chance(12)) else d.choice(["d0", "d1"]))
+            pick = (lambda: d.choice(["d0", "d1"]))
             inl = [["expr", ["dyn", "arr[%d].%s" % (e, pick())]]]
             if d.chance(40):
-                inl.append(["expr", ["not", ["dyn", "arr[%d].%s" % (1 - e, "d0" if has_fe else "d1")]]])
+                inl.append(["expr", ["not", ["dyn", "arr[%d].%s" % (1 - e, pick())]]])
             ops.append(["hcall", [i, j], inl, d.seed()])
     return {"cls": cls, "ops": ops, "sel": [d.randint(0, 1 << 16) for _ in range(6)]}
 
@@ -305,7 +289,7 @@ def run_case(case):
             continue
         if op[0] == "h2call":
             _, (i, j), dname, calls = op
-            if i == j or dname not in dyn or any(s_[0] == "foreach" for s_ in dyn[dname]):
+            if i == j or dname not in dyn:
                 continue
             try:
                 h = ns["H2a" if dname == "d0" else "H2b"]()
@@ -402,8 +386,6 @@ def body(case, acc):
         acc.label("foreach inside a dynamic block")
     acc.label("list edits", info.get("list_edits", 0))
     acc.label("calls on a holder whose class constraint references arr[sel].dyn()", info.get("h2calls", 0))
-    if pred_elem_dyn_foreach(case):
-        acc.label("known-finding shape: element dynamic block with foreach")
     return vios
 
 
